@@ -220,7 +220,7 @@ def main(chk, args):
     # 2. spec -> code cases: resolution cases (x histories when thorough) and carrier cases x every history
     cases, r2 = tlc.emit_cases('Lro', 'Lro.emit.res.cfg' if quick else 'Lro.emit.all.cfg', deadlock=False, timeout=1500)
     chk.add_tlc(r2, 'Lro case emission (resolution cases)')
-    carriers, r3 = tlc.emit_cases('Lro', 'Lro.emit.run.cfg', deadlock=False, timeout=1500)
+    carriers, r3 = tlc.emit_cases('Lro', 'Lro.emit.run.small.cfg' if quick else 'Lro.emit.run.cfg', deadlock=False, timeout=1500)
     chk.add_tlc(r3, 'Lro case emission (carrier cases x histories)')
     if not cases or not carriers:
         raise core.MachineryError('no cases emitted')
